@@ -31,7 +31,9 @@ def step_desc(sess, st):
         l = monitors.by_id(st["pre"], lid)
         if l is not None and l["exp"] is not None and int(l["exp"]) == now:
             flags.append("exact_expiry")
-    if mk == "fee_cycle" and now // 10 ** 9 == int(st["pre"]["fee"]["last"]) + 604800:
+    if mk == "fee_cycle" and now // 10 ** 9 == int(st["pre"]["fee"]["last"]) + 604800 \
+            and now - monitors.last_switch_ns(sess, st["i"]) >= 604800 * 10 ** 9:
+        # the one instant the property leaves open: a whole week has elapsed, not more than a week in whole seconds
         flags.append("exact_week")
     if op["t"] == "exec" and op["funds"]:
         flags.append("funds")
@@ -84,7 +86,19 @@ def run_job(job):
             cfgf, script, flags = corpus.SCRIPTS[job["name"]]
             sess = world.Session(cfgf(), h, name=job["name"], flags=flags)
             ctx = monitors.Ctx(sess)
+            sess.market_seen = {}
+
+            def on_query():
+                i = len(sess.steps) - 1
+                q = sess.queries(pages=QUERY_PAGES_QUICK, batches=[])
+                experiments.check_queries(sess, ctx, q, i)
+                qsteps[i] = q
+                # what the market query listed in this state (C16: listed => purchasable, judged by the next purchase attempt)
+                sess.market_seen[i] = set(int(l["id"]) for e in q["market"] if "ok" in e["r"] for l in e["r"]["ok"])
+
+            sess.on_query = on_query
             script(sess)
+            sess.on_query = None
             pages = tuple(range(0, 256)) if "all_pages" in flags else QUERY_PAGES_QUICK
             q = sess.queries(pages=pages, batches=[sess.by_kind("cw721"), sess.by_kind("cw721")[:1] + ["usr0"], []])
             experiments.check_queries(sess, ctx, q, len(sess.steps) - 1, all_pages=pages if "all_pages" in flags else None)
